@@ -39,7 +39,7 @@ fn replace_at(d: &Value, segs: &[String], new: &Value) -> Value {
 fn fixed_trees() -> Vec<Value> {
     vec![
         json!({"a": {"b": {"c": 1}}, "a.b": "dotted", "a\\b": "backslash", "x": null, "e": "", "z": [], "0": "zero-key", "-1": "minus-one-key",
-               "arr": [10, [20, 21], {"k": "v"}, null, "str"], "s": "héllo😀", "": {"": "empty-empty", "q": 1}, "é": {"日": 3}, "n": {"1": "one-key", "01": "zero-one"}}),
+               "arr": [10, [20, 21], {"k": "v"}, null, "str"], "s": "héllo😀", "": {"": "empty-empty", "q": 1}, "é": {"日": 3}, "😀": "astral-key", "a😀b": [1], "n": {"1": "one-key", "01": "zero-one"}}),
         json!([1, [2, [3, [4]]], {"a": [5, 6]}, "日本語", null, "", []]),
         json!("a😀é日\u{301}z"),
         json!({"secret": 42, "var": {"var": "secret"}, "default": {"log": "LEAK-d"}}),
@@ -182,6 +182,62 @@ fn c11_tree(ctx: &mut Ctx, tree: &Value) {
             }
         }
     }
+    // a character of a string is a one-character string: it can be indexed again (0 and -1 only)
+    for (segs, node) in nodes.iter() {
+        if let Value::String(st) = node {
+            if segs.last().map(|s| s.is_empty()).unwrap_or(false) {
+                continue;
+            }
+            let n = st.chars().count() as i64;
+            let prefix = path_of(segs);
+            for i in [-n, -1, 0, n - 1] {
+                if n == 0 {
+                    break;
+                }
+                for j in [-2i64, -1, 0, 1] {
+                    for l in [None, Some(-1i64), Some(0), Some(1)] {
+                        let mut p = if prefix.is_empty() { format!("{}.{}", i, j) } else { format!("{}.{}.{}", prefix, i, j) };
+                        if let Some(l) = l {
+                            p = format!("{}.{}", p, l);
+                        }
+                        let rule = json!({"var": [p, "DEFAULT"]});
+                        c11_case(ctx, &rule, tree, "index-into-character");
+                        ctx.mark_nontrivial(&rule, tree);
+                    }
+                }
+            }
+        }
+    }
+    // escaping is harmless: a backslash in front of ANY character of a derived path (not only
+    // dots and backslashes) still names the same node
+    for (segs, node) in paths.iter() {
+        if segs.last().map(|s| s.is_empty()).unwrap_or(true) || ctx.rng.chance(1, 2) {
+            continue;
+        }
+        let over: String = segs
+            .iter()
+            .map(|seg| {
+                let mut o = String::new();
+                for c in seg.chars() {
+                    if c == '.' || c == '\\' || ctx.rng.chance(1, 3) {
+                        o.push('\\');
+                    }
+                    o.push(c);
+                }
+                o
+            })
+            .collect::<Vec<_>>()
+            .join(".");
+        // an escaped digit is still a digit; an escaped minus sign in an index is left alone
+        let rule = json!({ "var": over });
+        let out = c11_case(ctx, &rule, tree, "over-escaped-path");
+        ctx.mon("c11.derived-path").observed += 1;
+        ctx.mon("c11.derived-path").judged += 1;
+        if !matches!(&out, Outcome::Ok(v) if v.to_string() == node.to_string()) {
+            ctx.violation("c11.derived-path", "over-escaped-path", &rule, tree, json!({"ok": node}), out.brief(), "a path with additional (redundant) escapes did not resolve to the same node");
+        }
+        ctx.mark_nontrivial(&rule, tree);
+    }
     for k in [i64::MIN, i64::MIN + 1, i64::MAX, -1, 0] {
         c11_case(ctx, &json!({ "var": k }), tree, "integer-key-extreme");
         c11_case(ctx, &json!({ "var": k.to_string() }), tree, "integer-key-extreme");
@@ -201,7 +257,7 @@ fn c11_core(ctx: &mut Ctx) {
     let d = fixed_trees().remove(0);
     for k in ["a.b", "a\\.b", "a\\\\b", "a\\b", "a.b.c", "a.b.c.d", "arr.1.0", "arr.1.-1", "arr.-1", "arr.-5", "arr.-6", "arr.5", "arr.2.k", "s.0", "s.1", "s.-1", "s.5", "s.6", "s.-6", "s.-7",
               ".", "..", "a.", ".a", "a..b", "\\", "a\\", ".q", "..q", "x", "x.y", "e", "e.0", "z", "z.0", "0", "-1", "n.1", "n.01", "arr.01", "arr.+1", "arr.1.", "arr. 1", "arr.1e0", "arr.-0", "é.日", "é.日.x",
-              "arr.18446744073709551616", "arr.9223372036854775808", "arr.-9223372036854775809", "s.١", "arr.1_0"] {
+              "\\é.日", "é.\\日", "\\a", "a\\.b\\", "\\😀", "arr.\\1", "s.\\0", "\\arr.1", "a\\😀b", "arr.18446744073709551616", "arr.9223372036854775808", "arr.-9223372036854775809", "s.١", "arr.1_0"] {
         idx += 1;
         if ctx.mine(idx) {
             c11_case(ctx, &json!({ "var": k }), &d, "spelling");
